@@ -10,10 +10,10 @@ geometry and WinAnsi text; scaled / inverted / RTL / character-level pages go th
 
 EVIDENCE = dict(
     level="model_checking",
-    rule="cases = all 405 abstract pages of LayoutConserveMC.tla (1-3 columns x 2-4 rows x full/ragged/sparse fill x 15 features: "
+    rule="cases = all 405 abstract pages of LayoutConserveMC.tla (1-3 columns x 2-4 rows x full/ragged/sparse fill x 28 features: "
          "stick-out word, tiny line, spanning title, in-column heading, bullets, duplicate layer, character-level, scale x10 / x0.1, "
-         "inverted Y, RTL, space-only fragment, short last lines, justified), laid out on exact coordinates; every stage "
-         "(lines, columns, paragraphs, blocks, reading order, sections) and rendering (detector texts, analyzer elements, 8 public API "
+         "inverted Y, RTL, space-only fragment, short last lines, justified, lists, fine print, wide title, margin numbers, raised marker, offset page box, line-end hyphen / soft hyphen / dash), laid out on exact coordinates; every stage "
+         "(lines, columns, paragraphs, blocks, reading order, sections) and rendering (detector texts, analyzer elements, 11 public API "
          "modes) is judged by the contract's guards and the recorded Stage/Render events are validated by LayoutConserveTrace.tla; "
          "the composition lemma of the contract is checked by TLC over a 4-element universe. Non-trivial = >= 2 columns or a feature.",
     assumptions=["fragment identity in stage results is (text, x, y)", "pdfdoc.BuildSimple places fragments exactly"],
